@@ -25,8 +25,9 @@ func init() {
 			"message IDs incl. values equal to the endpoint's own outgoing IDs, with loss/duplication/reordering by the network, housekeeping ticks, concurrent client-role requests of the endpoint and (concurrency mode) handlers held inside the per-MID section; " +
 			"non-trivial = at least one copy of an already seen request was delivered; distinct = distinct event-log hash",
 		Scenarios: []Scenario{
-			{Name: "S-DEDUP/boundary", Weight: 1, Run: func(e *Env) { c05Run(e, false) }},
-			{Name: "S-DEDUP/concurrent", Weight: 1, Run: func(e *Env) { c05Run(e, true) }},
+			{Name: "S-DEDUP/boundary", Weight: 3, Run: func(e *Env) { c05Run(e, false) }},
+			{Name: "S-DEDUP/concurrent", Weight: 3, Run: func(e *Env) { c05Run(e, true) }},
+			{Name: "S-DEDUP/server-connection", Weight: 1, Run: c05ServerRun},
 		},
 		Quick:    150000,
 		Thorough: 3000000,
